@@ -56,6 +56,16 @@ SCENARIOS = [
      ' fn m3(self) { fn outer() { fn deep() { return super.two("!"); } return deep; } return outer()(); }\n fn m4(self) { fn g() { return super.who; } return g()(); } }\n'
      'var b = B.new("b"); print(b.m()); print(b.m2()); print(b.m3()); print(b.m4()); var later = B.new("late").m3; print(later());',
      ["A.who(b)", "A.who(b)", "b!", "A.who(b)", "late!"]),
+    ("super-ignores-fields-and-dynamic-class",
+     'class A { fn name(self) { return "A.name"; } fn who(self) { return "A.who(" + self.t + ")"; } }\n'
+     '#[derive(A)] class B { fn who(self) { return "B.who"; } fn parent_who(self) { var f = super.who; return f(); } fn pname(self) { return super.name(); }\n'
+     ' fn pextra(self) { return super.extra(); } }\n'
+     '#[derive(B)] class C { #[constructor] fn new(self, t) { self.t = t; self.name = "a field"; self.extra = || "field extra"; } fn who(self) { return "C.who"; } }\n'
+     '#[derive(C)] class D { #[constructor] fn new(self, t) { super.new(t); } fn who(self) { return "D.who"; } }\n'
+     'var c = C.new("c"); var d = D.new("d"); print(c.parent_who()); print(d.parent_who()); print(c.pname()); print(d.pname());\n'
+     'c.who = || "field who"; print(c.who()); print(c.parent_who()); var g = d.parent_who; print(g());\n'
+     'try { print(c.pextra()); } catch e { print(type(e) == AttributeError); }',
+     ["A.who(c)", "A.who(d)", "A.name", "A.name", "field who", "A.who(c)", "A.who(d)", "true"]),
     ("super-survives-rebinding",
      '#[constructor(new)] class A { fn hi(self) { return "old A"; } }\n#[constructor(new), derive(A)] class B { fn hi(self) { return super.hi(); } fn grab(self) { return super.hi; } }\n'
      'var b = B.new(); A = nil; print(b.hi()); print(b.grab()());\n#[constructor(new)] class A2 { fn hi(self) { return "new"; } } A = A2; print(b.hi()); print(B.new().hi());',
